@@ -373,6 +373,145 @@ def _strip_sanitise(rv, env):
     return rv
 
 
+def _sanitiser_abstract(sf, ret, arg, consts):
+    """Abstract evaluation of the array the sanitiser returns, per kind of input entry: 'nan', '+inf', '-inf', 'fin' (a
+    regular value), 'huge' / '-huge' (finite, beyond the clamp value L).  Understood: np.nan_to_num, np.clip, np.where,
+    np.minimum / np.maximum, np.isnan / isinf / isposinf / isneginf / isfinite, ~ & | on masks, .copy(), locals, and
+    masked stores `out[mask] = value` before the return.  -> {kind: outcome} or None when something is not understood."""
+    KINDS = ("nan", "+inf", "-inf", "fin", "huge", "-huge")
+    L = None
+    for nm, v in consts.items():
+        if isinstance(v, (int, float)) and v > 1e6:
+            L = nm
+
+    def scalar(e):
+        if isinstance(e, ast.Constant) and isinstance(e.value, (int, float)):
+            return ("const", float(e.value))
+        if isinstance(e, ast.Name) and e.id == L:
+            return "L"
+        if isinstance(e, ast.UnaryOp) and isinstance(e.op, ast.USub):
+            x = scalar(e.operand)
+            return "-L" if x == "L" else ("const", -x[1]) if isinstance(x, tuple) else None
+        if isinstance(e, ast.Attribute) and src(e) in ("np.inf", "math.inf"):
+            return "+inf"
+        if isinstance(e, ast.Attribute) and src(e) in ("np.nan", "math.nan"):
+            return "nan"
+        return None
+
+    env = {arg: {k: k for k in KINDS}}
+    # statements before the return, in order (straight-line part of the function; the finite fast path is skipped)
+    body = []
+    for st in sf.node.body:
+        if st is ret or any(x is ret for x in ast.walk(st)):
+            break
+        body.append(st)
+
+    def arr(e):
+        if isinstance(e, ast.Name) and e.id in env and isinstance(env[e.id], dict) and "nan" in env[e.id]:
+            return env[e.id]
+        if isinstance(e, ast.Call):
+            d = dotted(e.func) or ""
+            if isinstance(e.func, ast.Attribute) and e.func.attr in ("copy", "astype") :
+                return arr(e.func.value)
+            if d in ("np.asarray", "np.array", "np.copy", "np.asarray_chkfinite") and e.args:
+                return arr(e.args[0])
+            if d == "np.nan_to_num" and e.args:
+                a = arr(e.args[0])
+                if a is None:
+                    return None
+                kw = {k.arg: k.value for k in e.keywords if k.arg}
+                if any(k.arg is None for k in e.keywords):
+                    return None
+                rep_ = {"nan": scalar(kw["nan"]) if "nan" in kw else ("const", 0.0), "+inf": scalar(kw["posinf"]) if "posinf" in kw else "L?", "-inf": scalar(kw["neginf"]) if "neginf" in kw else "-L?"}
+                if None in rep_.values():
+                    return None
+                return {k: (rep_[a[k]] if a[k] in rep_ else a[k]) for k in KINDS}
+            if d == "np.clip" and len(e.args) == 3:
+                a, lo, hi = arr(e.args[0]), scalar(e.args[1]), scalar(e.args[2])
+                if a is None or lo != "-L" or hi != "L":
+                    return None
+                m = {"nan": "nan", "+inf": "L", "-inf": "-L", "fin": "fin", "huge": "L", "-huge": "-L", "L": "L", "-L": "-L"}
+                return {k: m.get(a[k], a[k] if isinstance(a[k], tuple) else None) for k in KINDS}
+            if d in ("np.minimum", "np.fmin") and len(e.args) == 2:
+                a, hi = arr(e.args[0]), scalar(e.args[1])
+                if a is None or hi != "L":
+                    return None
+                m = {"nan": "nan" if d == "np.minimum" else "L", "+inf": "L", "-inf": "-inf", "fin": "fin", "huge": "L", "-huge": "-huge", "L": "L", "-L": "-L"}
+                return {k: m.get(a[k], a[k] if isinstance(a[k], tuple) else None) for k in KINDS}
+            if d in ("np.maximum", "np.fmax") and len(e.args) == 2:
+                a, lo = arr(e.args[0]), scalar(e.args[1])
+                if a is None or lo != "-L":
+                    return None
+                m = {"nan": "nan" if d == "np.maximum" else "-L", "+inf": "+inf", "-inf": "-L", "fin": "fin", "huge": "huge", "-huge": "-L", "L": "L", "-L": "-L"}
+                return {k: m.get(a[k], a[k] if isinstance(a[k], tuple) else None) for k in KINDS}
+            if d == "np.where" and len(e.args) == 3:
+                c = mask(e.args[0])
+                x = arr(e.args[1]) or ({k: scalar(e.args[1]) for k in KINDS} if scalar(e.args[1]) is not None else None)
+                y = arr(e.args[2]) or ({k: scalar(e.args[2]) for k in KINDS} if scalar(e.args[2]) is not None else None)
+                if c is None or x is None or y is None:
+                    return None
+                return {k: (x[k] if c[k] else y[k]) for k in KINDS}
+        return None
+
+    def mask(e):
+        """{kind: bool} for a boolean array expression"""
+        if isinstance(e, ast.Name) and e.id in env and isinstance(env[e.id], dict) and "nan" in env[e.id] and all(isinstance(v, bool) for v in env[e.id].values()):
+            return env[e.id]
+        if isinstance(e, ast.UnaryOp) and isinstance(e.op, ast.Invert):
+            m = mask(e.operand)
+            return None if m is None else {k: not v for k, v in m.items()}
+        if isinstance(e, ast.BinOp) and isinstance(e.op, (ast.BitAnd, ast.BitOr)):
+            a, b = mask(e.left), mask(e.right)
+            if a is None or b is None:
+                return None
+            return {k: (a[k] and b[k]) if isinstance(e.op, ast.BitAnd) else (a[k] or b[k]) for k in KINDS}
+        if isinstance(e, ast.Call):
+            d = dotted(e.func) or ""
+            if d in ("np.isnan", "np.isinf", "np.isposinf", "np.isneginf", "np.isfinite") and e.args:
+                a = arr(e.args[0])
+                if a is None:
+                    return None
+                test = {"np.isnan": lambda v: v == "nan", "np.isinf": lambda v: v in ("+inf", "-inf"), "np.isposinf": lambda v: v == "+inf", "np.isneginf": lambda v: v == "-inf",
+                        "np.isfinite": lambda v: v not in ("nan", "+inf", "-inf")}[d]
+                return {k: test(a[k]) for k in KINDS}
+            if d in ("np.logical_not",) and e.args:
+                m = mask(e.args[0])
+                return None if m is None else {k: not v for k, v in m.items()}
+        return None
+
+    for st in body:
+        if isinstance(st, ast.If):
+            # the finite fast path: `if np.all(np.isfinite(arr)): return arr`
+            if all(isinstance(x, ast.Return) for x in st.body) and not st.orelse:
+                continue
+            return None
+        if isinstance(st, (ast.Expr,)) and isinstance(st.value, ast.Constant):
+            continue
+        if isinstance(st, (ast.Assign, ast.AnnAssign)) and getattr(st, "value", None) is not None:
+            tg = st.targets[0] if isinstance(st, ast.Assign) else st.target
+            if isinstance(tg, ast.Name):
+                v = arr(st.value)
+                if v is None:
+                    v = mask(st.value)
+                if v is None:
+                    return None
+                env[tg.id] = v
+                continue
+            if isinstance(tg, ast.Subscript) and isinstance(tg.value, ast.Name) and tg.value.id in env:
+                m, val = mask(tg.slice), scalar(st.value)
+                a = env[tg.value.id]
+                if m is None or val is None or tg.value.id == arg:
+                    return None
+                env[tg.value.id] = {k: (val if m[k] else a[k]) for k in KINDS}
+                continue
+            return None
+        return None
+    out = arr(ret.value)
+    if out is None or any(v is None or v in ("L?", "-L?") for v in out.values()):
+        return None
+    return out
+
+
 def _module_value(module, name):
     for st in module.tree.body:
         tg = st.targets[0] if isinstance(st, ast.Assign) and len(st.targets) == 1 else st.target if isinstance(st, ast.AnnAssign) else None
@@ -629,7 +768,17 @@ def check(prog, rep):
             ok = (v.args and src(v.args[0]) == arg and nanv == 0 and pos is not None and neg is not None and pos > 0 and math.isfinite(pos) and neg == -pos)
             rep.ob("R19.3", "_sanitize_derivatives", bool(ok), f"NaN -> {nanv}, +inf -> {pos}, -inf -> {neg}" if ok else f"replacement values are wrong: nan={nanv}, posinf={pos}, neginf={neg} (expected 0, +L, -L with L>0 finite)", loc=f"{sf.module.rel}:{n.lineno}", detail="replacement-values")
         else:
-            rep.undecided(f"_sanitize_derivatives: return `{src(v)[:60]}` is not a form this rule reads")
+            res_ = _sanitiser_abstract(sf, n, arg, consts)
+            if res_ is None:
+                rep.undecided(f"_sanitize_derivatives: return `{src(v)[:60]}` is not a form this rule reads")
+                continue
+            want_ = {"nan": ("const", 0.0), "+inf": "L", "-inf": "-L", "fin": "fin", "huge": "huge", "-huge": "-huge"}
+            bad_ = [(k_, res_[k_]) for k_ in want_ if res_[k_] != want_[k_] and not (k_ == "nan" and res_[k_] == ("const", 0))]
+            names_ = {"nan": "NaN", "+inf": "+inf", "-inf": "-inf", "fin": "a regular entry", "huge": "a finite entry above the clamp value", "-huge": "a finite entry below minus the clamp value"}
+            show_ = lambda x: {"L": "+L", "-L": "-L", "fin": "itself", "huge": "itself", "-huge": "itself", "nan": "NaN", "+inf": "+inf", "-inf": "-inf"}.get(x, f"{x[1]}" if isinstance(x, tuple) else str(x))
+            rep.ob("R19.3", "_sanitize_derivatives", not bad_, "NaN -> 0, +inf -> +L, -inf -> -L, finite entries unchanged (abstract evaluation of the NumPy expression over the five kinds of entry)" if not bad_ else
+                   f"`{src(v)[:60]}` maps {names_[bad_[0][0]]} to {show_(bad_[0][1])}" + (" (expected 0)" if bad_[0][0] == "nan" else " (a finite derivative entry must come back unchanged)" if bad_[0][0] in ("fin", "huge", "-huge") else " (expected the finite clamp value with the same sign)"),
+                   loc=f"{sf.module.rel}:{n.lineno}", detail="replacement-values", robust=True)
     if nrets == 0:
         raise AnalysisError("sanitiser has no return")
 
